@@ -115,11 +115,11 @@ M('C01', 'isnull-on-propagating-base', QC,
 M('C01', 'function-wrapper-no-null-test', QE,
   "                args = [operand(row) for operand in self.operands]\n                for arg in args:\n                    if arg is None:\n                        return None\n",
   "                args = [operand(row) for operand in self.operands]\n",
-  ('R-NULLSTRICT', 'Func.__call__'))
+  ('R-EVALALL', 'Func.__call__'))
 M('C01', 'function-wrapper-checks-first-arg-only', QE,
   "                for arg in args:\n                    if arg is None:\n                        return None\n",
   "                if args and args[0] is None:\n                    return None\n",
-  ('R-NULLSTRICT', 'Func.__call__'))
+  ('R-EVALALL', 'Func.__call__'))
 M('C01', 'getitem-no-container-null-test', QE,
   "        obj, key = self.operands\n        obj = obj(row)\n        if obj is None:\n            return None\n",
   "        obj, key = self.operands\n        obj = obj(row)\n",
